@@ -145,10 +145,10 @@ def k_unequal(run, case):
 
 
 # ------------------------------------------------------------------ L3 helpers (shared with C02/C12)
-def make_file_pair(rng, fmt, workdir, n=None):
+def make_file_pair(rng, fmt, workdir, n=None, pos_cls=None):
     """write a reference/estimate file pair; returns dict with paths and ground-truth arrays"""
     n = n or int(rng.integers(6, 70))
-    ref = gen.traj_arrays(rng, n, pos_cls=["walk", "utm", "circle", "stationary_mix", "tiny"][rng.integers(5)],
+    ref = gen.traj_arrays(rng, n, pos_cls=pos_cls or ["walk", "utm", "circle", "stationary_mix", "tiny"][rng.integers(5)],
                           rot_cls=["smooth", "uniform", "mixed", "yaw_grid"][rng.integers(4)],
                           stamp_cls=["epoch", "small", "irregular"][rng.integers(3)])
     for k in range(1, n):
